@@ -77,7 +77,7 @@ class DeviceBase(Entity):
 
     def __str__(self) -> str:
         if self._STATE_ATTR:
-            return f"{self.id} ({self._SLUG}): {getattr(self, self._STATE_ATTR)}"
+            return f"{self.id} ({self._SLUG}): {getattr(self, self._STATE_ATTR, None)}"
         return f"{self.id} ({self._SLUG})"
 
     def __lt__(self, other: object) -> bool:
